@@ -1,6 +1,601 @@
+//! vp-run: proptest-driven runner, corpus/replay evaluation, evidence writer.
+//!
+//! usage: vp-run <ID> [--tier quick|thorough] [--seed N] [--cases N] [--threads N]
+//!               [--replay FILE] [--extra-corpus DIR]... [--root /verif] [--list]
+//!
+//! exit 0: property held on everything explored (KNOWN-FINDING lines may have been printed)
+//! exit 1: `VIOLATION property=<id> replay=<path>` printed
+//! exit 2: no verdict (harness-internal error, bad usage)
+
+use proptest::strategy::{Strategy, ValueTree};
+use proptest::test_runner::{Config, RngSeed, TestCaseError, TestError, TestRunner};
+use serde_json::json;
+use std::collections::{BTreeMap, HashSet};
+use std::path::{Path, PathBuf};
+use std::sync::Mutex;
+use std::sync::atomic::{AtomicBool, Ordering};
+use std::time::Instant;
+use vp_core::checks::{self, PropDef};
+use vp_core::common::{Ctx, Violation};
+use vp_core::engine::{CaseOutcome, eval_case, install_panic_hook};
+use vp_core::tape::{hash_bytes, hex, unhex};
+
+struct Args {
+    id: String,
+    tier: String,
+    seed: u64,
+    cases: Option<u64>,
+    threads: usize,
+    replay: Option<PathBuf>,
+    extra: Vec<PathBuf>,
+    root: PathBuf,
+    no_evidence: bool,
+    part: Option<String>,
+}
+
+fn parse_args() -> Result<Args, String> {
+    let mut a = Args {
+        id: String::new(),
+        tier: std::env::var("VERIF_TIER").unwrap_or_else(|_| "quick".into()),
+        seed: std::env::var("VERIF_SEED").ok().and_then(|s| s.trim().parse().ok()).unwrap_or(0),
+        cases: None,
+        threads: 16,
+        replay: None,
+        extra: Vec::new(),
+        root: PathBuf::from("/verif"),
+        no_evidence: false,
+        part: None,
+    };
+    let mut it = std::env::args().skip(1);
+    while let Some(x) = it.next() {
+        match x.as_str() {
+            "--tier" => a.tier = it.next().ok_or("--tier needs a value")?,
+            "--seed" => a.seed = it.next().ok_or("--seed needs a value")?.parse().map_err(|_| "bad seed")?,
+            "--cases" => a.cases = Some(it.next().ok_or("--cases needs a value")?.parse().map_err(|_| "bad cases")?),
+            "--threads" => a.threads = it.next().ok_or("--threads needs a value")?.parse().map_err(|_| "bad threads")?,
+            "--replay" => a.replay = Some(PathBuf::from(it.next().ok_or("--replay needs a path")?)),
+            "--extra-corpus" => a.extra.push(PathBuf::from(it.next().ok_or("--extra-corpus needs a dir")?)),
+            "--root" => a.root = PathBuf::from(it.next().ok_or("--root needs a dir")?),
+            "--no-evidence" => a.no_evidence = true,
+            "--part" => a.part = Some(it.next().ok_or("--part needs a value")?),
+            "--list" => {
+                for p in checks::props() {
+                    println!("{}", p.id);
+                }
+                std::process::exit(0);
+            }
+            s if !s.starts_with('-') && a.id.is_empty() => a.id = s.to_string(),
+            s => return Err(format!("unknown argument {s}")),
+        }
+    }
+    if a.id.is_empty() {
+        return Err("missing property id".into());
+    }
+    if a.tier != "quick" && a.tier != "thorough" {
+        return Err(format!("bad tier {}", a.tier));
+    }
+    Ok(a)
+}
+
+// ---------------------------------------------------------------------------------------
+// known findings
+
+#[derive(Debug, Clone)]
+struct KnownEntry {
+    fixed: bool,
+    property: String,
+    sig: String,
+    text: String,
+}
+
+fn load_known(root: &Path) -> Vec<KnownEntry> {
+    let p = root.join("KNOWN_FINDINGS.txt");
+    let Ok(s) = std::fs::read_to_string(&p) else {
+        return Vec::new();
+    };
+    let mut v = Vec::new();
+    for line in s.lines() {
+        let line = line.trim();
+        if line.is_empty() || line.starts_with('#') {
+            continue;
+        }
+        let (fixed, rest) = if let Some(r) = line.strip_prefix("known:") {
+            (false, r.trim())
+        } else if let Some(r) = line.strip_prefix("fixed:") {
+            (true, r.trim())
+        } else {
+            continue;
+        };
+        let mut property = String::new();
+        let mut sig = String::new();
+        let mut text = Vec::new();
+        for tok in rest.split_whitespace() {
+            if let Some(p) = tok.strip_prefix("property=") {
+                property = p.to_string();
+            } else if let Some(s) = tok.strip_prefix("sig=") {
+                sig = s.to_string();
+            } else {
+                text.push(tok);
+            }
+        }
+        v.push(KnownEntry {
+            fixed,
+            property,
+            sig,
+            text: text.join(" "),
+        });
+    }
+    v
+}
+
+// ---------------------------------------------------------------------------------------
+// tapes on disk
+
+fn read_tape_file(p: &Path) -> Result<Vec<u8>, String> {
+    let raw = std::fs::read(p).map_err(|e| format!("cannot read {}: {e}", p.display()))?;
+    // JSON replay file?
+    if let Ok(v) = serde_json::from_slice::<serde_json::Value>(&raw) {
+        if let Some(h) = v.get("tape").and_then(|t| t.as_str()) {
+            return unhex(h).ok_or_else(|| format!("bad hex in {}", p.display()));
+        }
+    }
+    // hex text?
+    if let Ok(s) = std::str::from_utf8(&raw) {
+        let body: String = s
+            .lines()
+            .filter(|l| !l.trim_start().starts_with('#'))
+            .collect::<Vec<_>>()
+            .join("");
+        let body: String = body.chars().filter(|c| !c.is_whitespace()).collect();
+        if !body.is_empty() && body.chars().all(|c| c.is_ascii_hexdigit()) {
+            if let Some(b) = unhex(&body) {
+                return Ok(b);
+            }
+        }
+    }
+    Ok(raw)
+}
+
+fn list_files(dir: &Path) -> Vec<PathBuf> {
+    let mut v: Vec<PathBuf> = match std::fs::read_dir(dir) {
+        Ok(rd) => rd.filter_map(|e| e.ok()).map(|e| e.path()).filter(|p| p.is_file()).collect(),
+        Err(_) => Vec::new(),
+    };
+    v.sort();
+    v
+}
+
+fn fit(tape: &[u8], len: usize) -> Vec<u8> {
+    let mut v = tape.to_vec();
+    v.resize(len, 0);
+    v
+}
+
+// ---------------------------------------------------------------------------------------
+// statistics
+
+#[derive(Default)]
+struct Stats {
+    evaluations: u64,
+    nontrivial_hashes: HashSet<u64>,
+    classes: BTreeMap<String, u64>,
+    samples: Vec<String>,
+    excluded_known: u64,
+}
+
+impl Stats {
+    fn merge(&mut self, o: Stats) {
+        self.evaluations += o.evaluations;
+        self.nontrivial_hashes.extend(o.nontrivial_hashes);
+        for (k, v) in o.classes {
+            *self.classes.entry(k).or_default() += v;
+        }
+        for s in o.samples {
+            if self.samples.len() < 6 {
+                self.samples.push(s);
+            }
+        }
+        self.excluded_known += o.excluded_known;
+    }
+    fn absorb(&mut self, report: &vp_core::common::Report, hash: u64) {
+        self.evaluations += 1;
+        self.excluded_known += report.excluded_known as u64;
+        if report.nontrivial {
+            self.nontrivial_hashes.insert(hash);
+            *self.classes.entry("nontrivial".into()).or_default() += 1;
+        }
+        for l in &report.labels {
+            *self.classes.entry((*l).to_string()).or_default() += 1;
+        }
+        if report.nontrivial && report.want_desc && self.samples.len() < 3 && !report.desc.is_empty() {
+            self.samples.push(report.desc.clone());
+        }
+    }
+}
+
+struct Failure {
+    tape: Vec<u8>,
+    v: Violation,
+    desc: String,
+    engine: String,
+}
+
+fn eval_into(ctx: &Ctx, p: &PropDef, tape: &[u8], stats: &mut Stats, engine: &str) -> Result<Option<Failure>, String> {
+    let want = stats.samples.len() < 3;
+    match eval_case(ctx, p, tape, want) {
+        CaseOutcome::Pass { report, hash } => {
+            stats.absorb(&report, hash);
+            Ok(None)
+        }
+        CaseOutcome::Fail { v, .. } => {
+            // re-run for the description
+            let desc = match eval_case(ctx, p, tape, true) {
+                CaseOutcome::Fail { report, .. } => report.desc,
+                _ => String::new(),
+            };
+            Ok(Some(Failure {
+                tape: tape.to_vec(),
+                v,
+                desc,
+                engine: engine.into(),
+            }))
+        }
+        CaseOutcome::Internal(m) => Err(m),
+    }
+}
+
+// ---------------------------------------------------------------------------------------
+// proptest engine
+
+fn worker_seed(seed: u64, id: &str, worker: usize) -> u64 {
+    let mut h = hash_bytes(id.as_bytes()) ^ seed.wrapping_mul(0x9E37_79B9_7F4A_7C15);
+    h = h.rotate_left(17) ^ (worker as u64).wrapping_mul(0xD6E8_FEB8_6659_FD93);
+    h ^ (h >> 31)
+}
+
+enum WorkerResult {
+    Ok(Stats),
+    Fail(Stats, Failure),
+    Internal(String),
+}
+
+fn run_worker(ctx: &Ctx, p: &PropDef, cases: u64, seed: u64, stop: &AtomicBool) -> WorkerResult {
+    let mut cfg = Config::default();
+    cfg.cases = cases.min(u32::MAX as u64) as u32;
+    cfg.failure_persistence = None;
+    cfg.rng_seed = RngSeed::Fixed(seed);
+    cfg.max_shrink_iters = 200_000;
+    cfg.max_shrink_time = 0;
+    cfg.max_global_rejects = 0;
+    cfg.verbose = 0;
+    cfg.source_file = None;
+    cfg.test_name = None;
+    let mut runner = TestRunner::new(cfg);
+    let len = p.tape_len;
+    let strat = proptest::collection::vec(proptest::prelude::any::<u8>(), len..=len);
+    let stats = std::cell::RefCell::new(Stats::default());
+    let first_sig: std::cell::RefCell<Option<String>> = Default::default();
+    let internal: std::cell::RefCell<Option<String>> = Default::default();
+    let result = runner.run(&strat, |tape| {
+        if internal.borrow().is_some() {
+            return Ok(());
+        }
+        let failed_already = first_sig.borrow().is_some();
+        if !failed_already && stop.load(Ordering::Relaxed) {
+            // another worker found a failure: finish quickly
+            return Ok(());
+        }
+        if failed_already {
+            // shrinking: only the same violation counts
+            match eval_case(ctx, p, &tape, false) {
+                CaseOutcome::Fail { v, .. } if Some(&v.sig) == first_sig.borrow().as_ref() => Err(TestCaseError::fail(v.sig)),
+                _ => Ok(()),
+            }
+        } else {
+            let want = stats.borrow().samples.len() < 3;
+            match eval_case(ctx, p, &tape, want) {
+                CaseOutcome::Pass { report, hash } => {
+                    stats.borrow_mut().absorb(&report, hash);
+                    Ok(())
+                }
+                CaseOutcome::Fail { v, .. } => {
+                    *first_sig.borrow_mut() = Some(v.sig.clone());
+                    stop.store(true, Ordering::Relaxed);
+                    Err(TestCaseError::fail(v.sig))
+                }
+                CaseOutcome::Internal(m) => {
+                    *internal.borrow_mut() = Some(m);
+                    Ok(())
+                }
+            }
+        }
+    });
+    if let Some(m) = internal.into_inner() {
+        return WorkerResult::Internal(m);
+    }
+    let stats = stats.into_inner();
+    match result {
+        Ok(()) => WorkerResult::Ok(stats),
+        Err(TestError::Fail(_, tape)) => {
+            // domain-aware final pass: zero trailing bytes / whole tape suffixes while the same signature persists
+            let sig = first_sig.into_inner().unwrap_or_default();
+            let mut best = tape.clone();
+            let mut cut = best.len();
+            while cut > 0 {
+                let mut cand = best.clone();
+                for b in cand[cut - 1..].iter_mut() {
+                    *b = 0;
+                }
+                if cand != best {
+                    if let CaseOutcome::Fail { v, .. } = eval_case(ctx, p, &cand, false) {
+                        if v.sig == sig {
+                            best = cand;
+                        }
+                    }
+                }
+                cut -= 1;
+            }
+            match eval_case(ctx, p, &best, true) {
+                CaseOutcome::Fail { v, report } => WorkerResult::Fail(
+                    stats,
+                    Failure {
+                        tape: best,
+                        v,
+                        desc: report.desc,
+                        engine: "proptest".into(),
+                    },
+                ),
+                CaseOutcome::Internal(m) => WorkerResult::Internal(m),
+                CaseOutcome::Pass { .. } => WorkerResult::Internal("shrunk tape no longer fails (non-deterministic check?)".into()),
+            }
+        }
+        Err(TestError::Abort(r)) => WorkerResult::Internal(format!("proptest aborted: {r}")),
+    }
+}
+
+// silence unused warnings for traits imported for method resolution on some proptest versions
+#[allow(dead_code)]
+fn _unused<S: Strategy>(s: S, r: &mut TestRunner) {
+    let _ = s.new_tree(r).map(|t| t.current());
+}
+
+// ---------------------------------------------------------------------------------------
+
+fn write_replay(root: &Path, id: &str, seed: u64, f: &Failure) -> PathBuf {
+    let dir = root.join("replays");
+    let _ = std::fs::create_dir_all(&dir);
+    let name = format!("{}-{:016x}.json", id, hash_bytes(&f.tape) ^ hash_bytes(f.v.sig.as_bytes()));
+    let path = dir.join(name);
+    let j = json!({
+        "property": id,
+        "engine": f.engine,
+        "seed": seed,
+        "tape": hex(&f.tape),
+        "decoded": f.desc,
+        "sig": f.v.sig,
+        "message": f.v.msg,
+    });
+    let _ = std::fs::write(&path, serde_json::to_string_pretty(&j).unwrap());
+    path
+}
+
 fn main() {
-    vp_core::toy::self_check().unwrap();
-    let s = vp_core::registry::all_suites();
-    println!("{} suites", s.len());
-    for x in &s { println!("{} bs={} par={} bm={} st={} cts={}", x.info.name, x.info.bs, x.info.par, x.block_modes.len(), x.streams.len(), x.cts.len()); }
+    let args = match parse_args() {
+        Ok(a) => a,
+        Err(e) => {
+            eprintln!("vp-run: {e}");
+            std::process::exit(2);
+        }
+    };
+    let Some(p) = checks::prop(&args.id) else {
+        eprintln!("vp-run: unknown property {}", args.id);
+        std::process::exit(2);
+    };
+    install_panic_hook();
+    if let Err(e) = vp_core::toy::self_check() {
+        eprintln!("vp-run: harness self-check failed: {e}");
+        std::process::exit(2);
+    }
+    let t0 = Instant::now();
+    let mut ctx = Ctx::new();
+    if let Err(e) = vp_core::selfcheck::run(&ctx, &args.id) {
+        eprintln!("vp-run: harness self-check failed: {e}");
+        std::process::exit(2);
+    }
+
+    // --- known findings: deterministic probes ------------------------------------------------
+    let known = load_known(&args.root);
+    let mut known_lines = Vec::new();
+    for (sig, probe) in p.probes {
+        let listed = known.iter().find(|k| !k.fixed && k.property == p.id && k.sig == *sig);
+        let res = std::panic::catch_unwind(std::panic::AssertUnwindSafe(|| probe(&ctx)));
+        match res {
+            Ok(Some(text)) => {
+                if let Some(k) = listed {
+                    println!("KNOWN-FINDING: property={} sig={} {} [{}]", p.id, sig, k.text, text);
+                    known_lines.push(format!("{sig}: {text}"));
+                    ctx.active_known.push((*sig).to_string());
+                }
+                // not listed: leave the region in the search; the generated checks will report it
+            }
+            Ok(None) => {}
+            Err(_) => {
+                eprintln!("vp-run: known-finding probe {sig} panicked");
+                std::process::exit(2);
+            }
+        }
+    }
+
+    // --- replay mode --------------------------------------------------------------------------
+    if let Some(path) = &args.replay {
+        let tape = match read_tape_file(path) {
+            Ok(t) => fit(&t, p.tape_len),
+            Err(e) => {
+                eprintln!("vp-run: {e}");
+                std::process::exit(2);
+            }
+        };
+        match eval_case(&ctx, &p, &tape, true) {
+            CaseOutcome::Pass { report, .. } => {
+                println!("replay {}: holds ({})", path.display(), report.desc);
+                std::process::exit(0);
+            }
+            CaseOutcome::Fail { v, report } => {
+                println!("replay {}: {} -- {}\n  case: {}", path.display(), v.sig, v.msg, report.desc);
+                println!("VIOLATION property={} replay={}", p.id, path.display());
+                std::process::exit(1);
+            }
+            CaseOutcome::Internal(m) => {
+                eprintln!("vp-run: {m}");
+                std::process::exit(2);
+            }
+        }
+    }
+
+    let mut total = Stats::default();
+    let mut engines: BTreeMap<String, u64> = BTreeMap::new();
+    let mut failure: Option<Failure> = None;
+
+    // --- committed corpus + extra corpora ---------------------------------------------------
+    let mut dirs = vec![("corpus".to_string(), args.root.join("corpus").join(p.id))];
+    for (i, d) in args.extra.iter().enumerate() {
+        dirs.push((format!("extra{i}:{}", d.file_name().map(|s| s.to_string_lossy().to_string()).unwrap_or_default()), d.clone()));
+    }
+    'outer: for (name, dir) in &dirs {
+        let before = total.evaluations;
+        for f in list_files(dir) {
+            let tape = match read_tape_file(&f) {
+                Ok(t) => fit(&t, p.tape_len),
+                Err(e) => {
+                    eprintln!("vp-run: {e}");
+                    std::process::exit(2);
+                }
+            };
+            match eval_into(&ctx, &p, &tape, &mut total, name) {
+                Ok(None) => {}
+                Ok(Some(fl)) => {
+                    failure = Some(fl);
+                    break 'outer;
+                }
+                Err(m) => {
+                    eprintln!("vp-run: {m} (tape {})", f.display());
+                    std::process::exit(2);
+                }
+            }
+        }
+        engines.insert(name.clone(), total.evaluations - before);
+    }
+
+    // --- generated search -----------------------------------------------------------------------
+    let cases = args.cases.unwrap_or(if args.tier == "quick" { p.quick_cases } else { p.thorough_cases });
+    if failure.is_none() && cases > 0 {
+        let threads = args.threads.max(1);
+        let per = cases.div_ceil(threads as u64);
+        let stop = AtomicBool::new(false);
+        let results: Mutex<Vec<(usize, WorkerResult)>> = Mutex::new(Vec::new());
+        std::thread::scope(|s| {
+            for w in 0..threads {
+                let ctx = &ctx;
+                let p = &p;
+                let stop = &stop;
+                let results = &results;
+                let seed = worker_seed(args.seed, p.id, w);
+                std::thread::Builder::new()
+                    .stack_size(16 << 20)
+                    .spawn_scoped(s, move || {
+                        install_thread();
+                        let r = run_worker(ctx, p, per, seed, stop);
+                        results.lock().unwrap().push((w, r));
+                    })
+                    .expect("spawn worker");
+            }
+        });
+        let mut rs = results.into_inner().unwrap();
+        rs.sort_by_key(|(w, _)| *w);
+        let before = total.evaluations;
+        for (_, r) in rs {
+            match r {
+                WorkerResult::Ok(s) => total.merge(s),
+                WorkerResult::Fail(s, f) => {
+                    total.merge(s);
+                    if failure.is_none() {
+                        failure = Some(f);
+                    }
+                }
+                WorkerResult::Internal(m) => {
+                    eprintln!("vp-run: {m}");
+                    std::process::exit(2);
+                }
+            }
+        }
+        engines.insert("proptest".into(), total.evaluations - before);
+    }
+
+    let wall = t0.elapsed().as_secs_f64();
+    let violations = if failure.is_some() { 1 } else { 0 };
+    let mut replay_path = None;
+    if let Some(f) = &failure {
+        let path = write_replay(&args.root, p.id, args.seed, f);
+        println!("{}: {} -- {}", p.id, f.v.sig, f.v.msg);
+        println!("  case: {}", f.desc);
+        println!("  tape: {}", hex(&f.tape));
+        replay_path = Some(path);
+    }
+
+    // --- evidence --------------------------------------------------------------------------------
+    if !args.no_evidence {
+        let mut samples: Vec<serde_json::Value> = total.samples.iter().map(|s| json!(s)).collect();
+        if samples.is_empty() {
+            samples.push(json!("(no non-trivial case was described in this run)"));
+        }
+        let ev = json!({
+            "property_id": p.id,
+            "tier": args.tier,
+            "seed": args.seed,
+            "level": "exploration",
+            "coverage": {
+                "evaluations": total.evaluations,
+                "distinct_nontrivial": total.nontrivial_hashes.len(),
+                "rule": p.rule,
+                "samples": samples,
+                "classes": total.classes,
+                "excluded_known": total.excluded_known,
+                "engines": engines,
+                "known_findings_reproduced": known_lines,
+                "cipher_configs": ctx.suites.len(),
+                "zeroize_build": vp_core::ZEROIZE,
+            },
+            "assumptions": p.assumptions,
+            "wall_s": wall,
+            "violations": violations,
+        });
+        let name = match &args.part {
+            Some(part) => format!("{}.{}.part.json", p.id, part),
+            None => format!("{}.json", p.id),
+        };
+        let dir = args.root.join("evidence");
+        let _ = std::fs::create_dir_all(&dir);
+        if let Err(e) = std::fs::write(dir.join(name), serde_json::to_string_pretty(&ev).unwrap() + "\n") {
+            eprintln!("vp-run: cannot write evidence: {e}");
+            std::process::exit(2);
+        }
+    }
+    println!(
+        "{} {} seed={} evaluations={} distinct_nontrivial={} excluded_known={} wall={:.1}s",
+        p.id,
+        args.tier,
+        args.seed,
+        total.evaluations,
+        total.nontrivial_hashes.len(),
+        total.excluded_known,
+        wall
+    );
+    if let Some(path) = replay_path {
+        println!("VIOLATION property={} replay={}", p.id, path.display());
+        std::process::exit(1);
+    }
+}
+
+fn install_thread() {
+    // the panic hook is process-global; nothing per-thread to do, kept for symmetry
 }
